@@ -198,6 +198,14 @@ def r3_mesh(ctx, rule="R3"):
                  require={"verde.utils.meshgrid_to_1d": [{"mesh-slice"}], "verde.utils.meshgrid_from_1d": [{"meshgrid-operands"}], "verde.utils.check_meshgrid": [{"mesh-slice"}]})
     # meshgrid_to_1d validates first
     qn = "verde.utils.meshgrid_to_1d"
+    for p in ctx.paths(qn):
+        if p.exit != "return":
+            continue
+        els = Q.unseq(p.value)
+        els = els[1] if els[0] in ("tuple", "list") else ()
+        srt = [x for x in els[:2] if isinstance(x, tuple) and any(y[0] == "call" and callee(y) in ("numpy.unique", "numpy.sort", "builtins.sorted", "pandas.unique") for y in walk(x) if isinstance(y, tuple) and y)]
+        ctx.check(rule, qn + "|vectors-in-the-given-order", False if srt else True, "the 1-D vectors are taken from the 2-D arrays in the order given (first row / first column)",
+                  bad="a coordinate vector is produced by %s: coordinates that decrease with the index (north-up rasters) come back re-ordered while the data rows keep their order" % (show(srt[0])[:60] if srt else ""), fn=qn)
     K.precedes(ctx, rule, qn, K.is_call("verde.utils.check_meshgrid"), lambda e: False, "check_meshgrid-called", "", require_second=False)
     ok = all(any(e.kind == "call" and callee(e.data[0]) == "verde.utils.check_meshgrid" for e in p.events) for p in ctx.paths(qn) if p.normal)
     ctx.check(rule, qn + "|validates-meshgrid", ok, "2-D inputs are checked to be meshgrids on every normal path", bad="meshgrid_to_1d no longer rejects non-meshgrid 2-D inputs", fn=qn)
